@@ -36,17 +36,19 @@ def main(argv=None):
     except ModuleNotFoundError:
         print(f"ANALYSIS-ERROR property={prop} no such check")
         return 2
+    ctx = None
     try:
         ctx = build_ctx(prop, a.tier, seed)
         if ctx.eff.stats["calls"] == 0:
             raise AnalysisError("no call sites parsed")
         if a.replay:
             return replay(mod, ctx, a.replay)
-        from .guards import soundness_guards, hidden_state_rule, property_roots
+        from .guards import soundness_guards, hidden_state_rule, property_roots, identity_rule
         soundness_guards(ctx)
         mod.run(ctx)
         roots, what = property_roots(ctx, prop)
         hidden_state_rule(ctx, "R0.1", roots, what, prop=prop)
+        identity_rule(ctx, "R0.2", roots, what)
         if a.tier == "thorough" and os.environ.get("VERIF_SELFTEST", "1") != "0" and ctx.repo.root == "/repo":
             ctx.informational["selftest"] = run_selftest(prop)
         from .report import finish
@@ -55,6 +57,16 @@ def main(argv=None):
         return finish(ctx, mod.CLAIM, mod.EXPLANATION, list(getattr(mod, "ASSUMPTIONS", [])), TRUSTED_BASE, cmd,
                       exhaustive=(ex is True) or (ex == "thorough" and a.tier == "thorough"))
     except AnalysisError as e:
+        # A rule that could not be evaluated gives no verdict -- but a violation another rule has already established stands on
+        # its own: it is reported (exit 1), with the incomplete part named.  Without such a violation the run is exit 2.
+        if ctx is not None and not a.replay:
+            from .report import finish, load_known
+            known = load_known()[0].get(prop, {})
+            if any(f.key not in known for f in ctx.findings):
+                print(f"NOTE: analysis incomplete, rules after this point were not evaluated: {e}")
+                ctx._cur = None
+                ctx.note(f"analysis incomplete: {e}")
+                return finish(ctx, mod.CLAIM, mod.EXPLANATION, list(getattr(mod, "ASSUMPTIONS", [])), TRUSTED_BASE, f"./check {prop} --tier {a.tier}", exhaustive=False)
         print(f"ANALYSIS-ERROR property={prop} {e}")
         return 2
     except Exception as e:  # a crash of the analyser is never a verdict
